@@ -43,6 +43,66 @@ def legit_orders():
             yield out
 
 
+def outage_cases():
+    return [(kind, victim) for kind in ('dpd', 'rekey_ike', 'soft', 'hard') for victim in ('A', 'B')]
+
+
+def run_outage(case):
+    """one direction of the path is down for a while: everything the victim sends is lost until it gives its IKE_SA up (in
+    the timer sweep); the other side, which noticed nothing, then sends on that IKE_SA.  Both daemons stay alive, and
+    when the path is back a fresh negotiation succeeds."""
+    kind, victim = case
+    other = 'B' if victim == 'A' else 'A'
+    w = S.new_world(S.base_confs())
+    w.step(('acquire', 'A', 0, 0))
+    w.deliver_all()
+    ep = w.endpoints[victim]
+    if kind in ('soft', 'hard'):
+        w.step(('expire', victim, bytes(ep.controller.ike_sas[0].child_sas[0].inbound_spi), kind == 'hard'))
+    else:
+        w.step(('due', victim, 0, kind))
+
+    def dead():
+        return [('loop-exit:%s' % e.dead_reason[0], '%s left main_loop of %s (%s outage, %s outstanding): %s' % (
+            e.dead_reason[0], n, victim, kind, e.dead_reason[1][:200])) for n, e in w.endpoints.items() if not e.alive]
+    for _ in range(60):
+        for d in list(w.net):
+            w.step(('drop', d.id) if d.sender == victim else ('deliver', d.id))
+        if dead():
+            return dead()
+        if not ep.controller.ike_sas:
+            break
+        dl = P.next_retransmit_deadline(w)
+        w.step(('tick', max(0.0, dl - w.clock) + 0.01) if dl is not None else ('tick', 1.0))
+    if ep.controller.ike_sas:
+        return [('outage-never-given-up', '%s still holds %s after 60 rounds of lost transmissions' % (
+            victim, [s.state.name for s in ep.controller.ike_sas]))]
+    # the path is back; the other side uses the IKE_SA it still believes in
+    o = w.endpoints[other]
+    for i, s in enumerate(o.controller.ike_sas):
+        if s.state == State.ESTABLISHED:
+            w.step(('due', other, i, 'dpd'))
+            break
+    for k in range(60):
+        for d in list(w.net):
+            w.step(('deliver', d.id))
+        if dead():
+            return dead()
+        w.step(('tick', 1.0))
+    if dead():
+        return dead()
+    w.step(('acquire', victim, 0, 0))
+    for k in range(40):
+        if not w.net:
+            break
+        w.step(('deliver', w.net[0].id))
+    if dead():
+        return dead()
+    if not (P.established_pairs(w.endpoints['A']) & P.established_pairs(w.endpoints['B'])):
+        return [('no-service-after-outage', 'after the outage a fresh negotiation started by %s does not establish' % victim)]
+    return []
+
+
 def run_legit(session):
     w = S.new_world(S.base_confs())
     for ev in session_events(w, session=session):
@@ -581,6 +641,12 @@ def replay(path):
             print('reproduced:', r)
         print('REPLAY %s' % ('reproduces a violation' if res else 'does not reproduce'))
         sys.exit(1 if res else 0)
+    if 'outage' in doc:
+        res = run_outage(tuple(doc['outage']))
+        for r in res:
+            print('reproduced:', r)
+        print('REPLAY %s' % ('reproduces a violation' if res else 'does not reproduce'))
+        sys.exit(1 if res else 0)
     if 'legit' in doc:
         res = run_legit([tuple(x) if isinstance(x, (list, tuple)) else x for x in doc['legit']])
         for r in res:
@@ -622,6 +688,12 @@ def main():
         for sig, msg in probs:
             ck.violation('%s:legit-order:%s' % (sig, '>'.join(x[0] for x in sess if x != 'drain')), '%s [legitimate session %s]' % (msg, lab),
                          dict(legit=sess))
+    oc = outage_cases()
+    for case, probs in zip(oc, ck.pmap(run_outage, oc)):
+        labels.add('outage:%s:%s' % case)
+        outcomes[('outage', 'ok' if not probs else probs[0][0])] += 1
+        for sig, msg in probs:
+            ck.violation('%s:outage:%s' % (sig, case[0]), msg, dict(outage=list(case)))
     mc = list(multi_cases())
     for case, probs in zip(mc, ck.pmap(multi_case, mc)):
         labels.add('multi-peer:dead=%s' % ''.join(case[1]))
@@ -629,7 +701,7 @@ def main():
         for sig, msg in probs:
             ck.violation('multi-peer:%s:dead=%d' % (sig, len(case[1])), '%s [ACQUIRE order %s, dead peers %s]' % (msg, case[0], case[1]),
                          dict(multi=case))
-    ck.coverage.update(evaluations=len(cs) + len(mc) + len(lo), legit_orders=len(lo), distinct_nontrivial=len(labels),
+    ck.coverage.update(evaluations=len(cs) + len(mc) + len(lo) + len(oc), outages=len(oc), legit_orders=len(lo), distinct_nontrivial=len(labels),
                        rule='one evaluation = (position in the legitimate session, endpoint, hostile item or failing call '
                             'index): the item is injected through main_loop on a copy of the world, lines executed are '
                             'counted, then the session is completed and compared; distinct_nontrivial = distinct hostile '
